@@ -188,6 +188,11 @@ KNOWN_WITNESSES = {
     'eq_chain_left': ('#if MODE == 2 == 1\nchar yes;\n#else\nchar no;\n#endif\n', [('MODE', '2')], 'char yes;\n'),
     'eq_chain_left2': ('#if 0 == 0 == 2\nchar yes;\n#else\nchar no;\n#endif\n', [], 'char no;\n'),
     'eq_chain_not': ('#if !3 == 0 == 1\nchar yes;\n#elif 2 == 2 == 2\nchar no;\n#else\nchar neither;\n#endif\n', [], 'char yes;\n'),
+    # '#' may be followed by blanks; the directive name ends at the first character that is not a letter (batch E)
+    'blank_after_hash_skipped_else': ('#if 0\nchar a;\n# else\nchar b;\n#endif\nchar tail;\n', [], 'char b;\nchar tail;\n'),
+    'blank_after_hash_all': ('#  define N 1\n# ifdef N\nchar yes;\n#   else\nchar no;\n# endif\n', [], 'char yes;\n'),
+    'if_bang_nested_skipped': ('#if 0\n#if!FOO\nchar x;\n#endif\n#endif\nchar tail;\n', [], 'char tail;\n'),
+    'if_bang': ('#if!N\nchar a;\n#else\nchar b;\n#endif\n', [('N', '1')], 'char b;\n'),
     'eq_values': ('#if V == 3\nchar yes;\n#else\nchar no;\n#endif\n', [('V', '2')], 'char no;\n'),
     # text and directives of groups that are not selected have no effect at all (repaired 4807eff)
     'skipped_quote': ('#if 0\nthis isn\'t "closed\n#endif\nchar ok;\n', [], 'char ok;\n'),
